@@ -350,6 +350,56 @@ class Gen:
                 t[fi.number] = self.leaf(fi, depth, "mixed")
         return canon(self.b, mi, t)
 
+    # sizes around the points where length prefixes, buffers and typical "optimisation" thresholds change
+    BIG_SIZES = [127, 128, 1023, 1024, 4095, 4096, 4097, 8191, 8192, 12000, 16383, 16384, 20000, 32767, 32768, 65535, 65536, 65537, 70000]
+    BIG_COUNTS = [31, 32, 33, 64, 65, 127, 128, 129, 256, 257, 300, 1366, 2100]
+
+    def big(self, mi: MsgInfo, budget: int = 40) -> Iterator[Tuple[str, dict]]:
+        """QUANTITY and SIZE: one field of the message holds a payload / a number of elements / a number of entries well
+        beyond what the other shapes produce (strings and bytes of 127..70000 bytes, 31..2100 elements or entries, a nested
+        message that is large because of what it contains).  One (field, size) cell per case, sizes drawn per field."""
+        rng = self.rng
+        cells = []
+        for fi in mi.fields:
+            kind = fi.wkt.split(":")[1] if (fi.wkt or "").startswith("wrapper:") else fi.kind
+            if fi.label in ("singular", "optional", "oneof") and kind in ("string", "bytes") and (fi.wkt is None or fi.wkt.startswith("wrapper:")):
+                for n in rng.sample(self.BIG_SIZES, 4):
+                    v = ("s" * n) if kind == "string" else bytes((i * 31 + n) % 256 for i in range(n))
+                    cells.append((f"big-{kind}:{n}", {fi.number: v}))
+            elif fi.label == "repeated":
+                for n in rng.sample(self.BIG_COUNTS, 3):
+                    if fi.kind == "message" and fi.wkt is None:
+                        if n > 300:
+                            n = 300
+                        vals = [self.leaf(fi, self.max_depth - 1, "mixed") if i % 3 else {} for i in range(n)]
+                    elif kind in ("string", "bytes"):
+                        vals = [norm_leaf(kind, ("e%d" % i) if kind == "string" else bytes([i % 256, (i >> 8) % 256])) for i in range(n)]
+                    else:
+                        pool = self._bounds_for(fi)
+                        vals = [pool[(i * 7 + n) % len(pool)] for i in range(n)]
+                    cells.append((f"big-repeated-{fi.kind}:{n}", {fi.number: vals}))
+            elif fi.label == "map":
+                for n in rng.sample(self.BIG_COUNTS[:11], 2):
+                    kk = fi.map_key.kind
+                    if kk == "bool":
+                        continue
+                    d = {}
+                    for i in range(n):
+                        k = norm_leaf(kk, ("k%04d" % ((i * 7919) % 10007)) if kk == "string" else (i * 7919) % 10007 + (1 if kk.startswith("u") or kk.startswith("fixed") else -50))
+                        d[k] = self.leaf(fi.map_value, self.max_depth - 1, "mixed") if i % 4 else self._bounds_for(fi.map_value)[0]
+                    cells.append((f"big-map-{fi.map_value.kind}:{n}", {fi.number: d}))
+            elif fi.label in ("singular", "optional", "oneof") and fi.kind == "message" and fi.wkt is None:
+                sub = self.b.msgs[fi.type_name]
+                inner = [f for f in sub.fields if f.label in ("singular", "optional") and f.kind in ("string", "bytes") and f.wkt is None]
+                if inner:
+                    f2 = inner[0]
+                    for n in rng.sample(self.BIG_SIZES[7:], 3):
+                        v = ("n" * n) if f2.kind == "string" else bytes((i * 17) % 256 for i in range(n))
+                        cells.append((f"big-nested-{f2.kind}:{n}", {fi.number: {f2.number: v}}))
+        rng.shuffle(cells)
+        for tag, tree in cells[:budget]:
+            yield tag, canon(self.b, mi, tree)
+
     def matrix(self, mi: MsgInfo) -> Iterator[Tuple[FieldInfo, str, dict]]:
         """one field set, one boundary value -- every (field, boundary) cell alone"""
         for fi in mi.fields:
